@@ -104,6 +104,7 @@ func (w *World) execSave() bool {
 	}
 	w.lastSaveTip = w.tip
 	w.deepReorgSinceSave = false
+	w.markShrankSinceSave = false
 	return true
 }
 
@@ -319,6 +320,7 @@ func (w *World) execMark(op Op) {
 	}
 	if wasOnBest {
 		w.c.Probe("mark-forced-fallback")
+		w.markShrankSinceSave = true
 	}
 	w.afterMutation(oldTip, nil, "mark")
 	// A marking may rightly lower the tip's work below that of the last completed Save; the floor that
@@ -633,6 +635,7 @@ func (w *World) execCrash(op Op) {
 	from := w.st.LogLen()
 	lastSaved := w.lastSaveTip
 	deepBefore := w.deepReorgSinceSave // as it was before the operation whose prefixes are enumerated
+	markBefore := w.markShrankSinceSave
 	name := "clean"
 	if op.A&1 == 1 {
 		name = "save"
@@ -657,8 +660,10 @@ func (w *World) execCrash(op Op) {
 		img := pre.Clone()
 		img.Apply(muts[:k])
 		w.imageAfterDeepReorg = deepBefore
+		w.imageAfterMarkShrank = markBefore
 		w.checkImage(img, fmt.Sprintf("%s, crash after %d of %d storage mutations", name, k, len(muts)), lastSaved)
 		w.imageAfterDeepReorg = false
+		w.imageAfterMarkShrank = false
 	}
 }
 
@@ -708,6 +713,8 @@ func (w *World) checkImage(img *simstore.Store, what string, lastSaved *model.No
 	}
 	if w.imageAfterDeepReorg {
 		w.ancestrySuffix = ":after-reorg-deeper-than-prune-depth"
+	} else if w.imageAfterMarkShrank {
+		w.ancestrySuffix = ":after-marking-removed-best-chain-headers"
 	}
 	linked := w.checkAncestry("c12.chain-linked", repo, tn)
 	w.ancestrySuffix = ""
